@@ -83,6 +83,8 @@ def tla_record(d):
         ('cmt', d['cmt']), ('forbidden', set(ord(c) for c in d['forbidden'])),
         ('has_ctx', d['ctx'] != 'none'), ('par_special', par_special), ('specials', sp),
     ]
+    if 'tol' in d:
+        fields.append(('tol', bool(d['tol'])))
     out = []
     for k, v in fields:
         if isinstance(v, set) and not v:
